@@ -5,9 +5,9 @@
        S   = (proc p) | (recv (cls..) 0|1) | (timeout d) | (bad InvalidArgument|TypeMismatch)
        VD  = (t n) | nil | (e Class)          (filter oracle; absent entries are nil)
        VAL = (m id cls) | nil | (v n)
-       E   = (step now) | (msg id cls) | (res p VAL) | (fail p) | (active) | (local p VAL|-) | (tick now)
+       E   = (step now) | (msg id cls) | (res p VAL) | (fail p) | (active) | (local p VAL|-) | (tick now) | (report p..)
      -> (run D..)   one dump D per event:
-        (d (q b) (s b) SEL (mb (id cls)..) (aw (p -|VAL)..) (val -|VAL) (err -|(e Class)|(aw p)) (nt -|t) (act -|p..))
+        (d (q b) (s b) SEL (mb (id cls)..) (aw (p -|VAL)..) (un p..) (val -|VAL) (err -|(e Class)|(aw p)) (nt -|t) (act -|p..))
         SEL = - | (sel (cur c..) (recv -|(r (id cls))) (start -|t) (nsrc n))
         or (panic site) from the first event that panics on
    (spec (srcs S..) (verdicts ..) (mb ..) (aw ..) (start t) (now t))
@@ -103,6 +103,7 @@ let event_of = function
   | Sexp.List [Sexp.Atom "active"] -> EActive
   | Sexp.List [Sexp.Atom "local"; p; v] -> ELocal (nat_of p, optval_of v)
   | Sexp.List [Sexp.Atom "tick"; now] -> ETick (z_of_string (Sexp.atom now))
+  | Sexp.List (Sexp.Atom "report" :: ps) -> EReport (List.map nat_of ps)
   | s -> failwith ("bad event " ^ Sexp.to_string s)
 
 let dump_msg (id, cls) = "(" ^ sn id ^ " " ^ sn cls ^ ")"
@@ -125,6 +126,7 @@ let dump_proc (st : proc) : string =
   "(d (q " ^ b2s st.p_queued ^ ") (s " ^ b2s st.p_selecting ^ ") " ^ sel
   ^ " (mb" ^ String.concat "" (List.map (fun m -> " " ^ dump_msg m) st.p_mailbox) ^ ")"
   ^ " (aw" ^ String.concat "" (List.map (fun (p, v) -> " (" ^ string_of_int p ^ " " ^ v ^ ")") aw) ^ ")"
+  ^ " (un" ^ String.concat "" (List.map (fun p -> " " ^ sn p) st.p_unreported) ^ ")"
   ^ " (val " ^ dump_optval st.p_value ^ ")"
   ^ " (err " ^ (match st.p_error with None -> "-" | Some (PErr e) -> "(e " ^ err_name e ^ ")" | Some (PAwaited p) -> "(aw " ^ sn p ^ ")") ^ ")"
   ^ " (nt " ^ dump_optz (next_timeout st) ^ "))"
